@@ -776,5 +776,13 @@ func (c *Client) Do(ctx context.Context, q Query) (err error) {
 		}
 		return nil
 	})
-	return g.Wait()
+	err = g.Wait()
+	if err != nil && !c.IsClosed() {
+		// The query failed but the connection stays usable (server exception).
+		// Anything the sender had encoded and not flushed - it stops flushing as
+		// soon as the group context is cancelled - must not be sent in front of
+		// the next request.
+		c.writer = proto.NewWriter(c.conn, new(proto.Buffer))
+	}
+	return err
 }
